@@ -255,7 +255,17 @@ fn retarget_ids(i: &mut Inst) -> bool {
 fn lift_words(words: &[u32]) -> Result<Result<rspirv::sr::module::Module, String>, String> {
     guarded(|| {
         let m = dr::load_words(words).map_err(|e| format!("load: {:?}", crate::util::state_name(&e)))?;
-        LiftContext::convert(&m).map_err(|e| format!("{:?}", e))
+        let first = LiftContext::convert(&m).map_err(|e| format!("{:?}", e));
+        // second use: lifting the same module again gives the same result
+        let second = LiftContext::convert(&m).map_err(|e| format!("{:?}", e));
+        let show = |r: &Result<rspirv::sr::module::Module, String>| match r {
+            Ok(x) => format!("{:#x} {:?} {:?} {:?} {:?} {:?} {:?} {:?}", x.version, x.capabilities, x.extensions, x.ext_inst_imports, x.types, x.constants, x.ops, x.functions.iter().map(|f| format!("{:?} {} {:?}", f.control, f.result.index(), f.blocks)).collect::<Vec<_>>()),
+            Err(e) => format!("Err {}", e),
+        };
+        if show(&first) != show(&second) {
+            return Err(format!("lifting the same module twice gives different results: {} / {}", show(&first).chars().take(200).collect::<String>(), show(&second).chars().take(200).collect::<String>()));
+        }
+        first
     })
 }
 
@@ -710,6 +720,9 @@ pub fn run(tier: Tier) -> Run {
     for t0 in ["Return", "ReturnValue", "Kill", "Unreachable"] {
         for n0 in 0..=2usize {
             func_shapes.push(vec![(n0, 0, t0)]);
+            // a phi already in the first (or only) block of a function
+            func_shapes.push(vec![(n0, 1 + n0 % 2, t0)]);
+            func_shapes.push(vec![(n0, 1, t0), (1, 1, "Branch")]);
             for t1 in terms {
                 for p1 in 0..=2usize {
                     func_shapes.push(vec![(n0, 0, t0), (1, p1, t1)]);
